@@ -62,10 +62,28 @@ def _same(inp, cleaned):
         return False
 
 
+HOSTILE = [
+    # unparsable rows (dropped by preprocess - C05's known finding) in front of / between rows of every kind:
+    # the surviving rows must still satisfy every row-level property
+    ["C(C>>CC", "CC(=O)OCC>>CC(=O)O", "CCO.CC(=O)O>>CC(=O)OCC.O", "CCO>>CC=O", "C=C.BrBr>>BrCCBr"],
+    ["CCO>>CCO", "c1ccc>>CC", "CC>>C(C", "CC(=O)Cl.N>>CC(=O)N", "CC(=O)O.OCC>>CC(=O)OCC.O", "CCCC>>CCCCC", "CC(=O)OC=C>>CC(=O)O"],
+    ["CC(=O)OC=C>>CC(=O)O", "C(C>>CC", "CCBr.[OH-]>>CCO", "CCO>>CCO", "CCO>>CC(=O)O"],
+]
+
+
 def bounded_rows(run, name, row_check, props_for_monitors=None, **cfg):
     """evaluate row_check(input, row) -> None | message on every row; monitor violations are reported too"""
     reactions = inputs(run)
     pairs, viol, stats, calls = run_pipeline(run, reactions, **cfg)
+    pairs = list(pairs)
+    viol = list(viol)
+    calls = dict(calls)
+    for hb in HOSTILE:
+        p2, v2, _, c2 = run_pipeline(run, hb, chunk=len(hb), **cfg)
+        pairs += p2
+        viol += v2
+        for k, v in c2.items():
+            calls[k] = calls.get(k, 0) + v
     fails = []
     distinct = set()
     samples = []
@@ -77,8 +95,8 @@ def bounded_rows(run, name, row_check, props_for_monitors=None, **cfg):
         elif len(samples) < 3:
             samples.append({"input": inp, "reaction": row.get("reaction"), "solved": row.get("solved"),
                             "solved_by": row.get("solved_by")})
-    run.bounded(name, "%d crafted + %d validation-set reactions through the real Balancer (n_jobs=1, batches of 40)"
-                % (len(P.CRAFTED), len(reactions) - len(P.CRAFTED)), len(pairs), len(distinct), fails[:8], False, samples)
+    run.bounded(name, "%d crafted + %d validation-set reactions through the real Balancer (n_jobs=1, batches of 40) and %d batches that mix in unparsable rows"
+                % (len(P.CRAFTED), len(reactions) - len(P.CRAFTED), len(HOSTILE)), len(pairs), len(distinct), fails[:8], False, samples)
     mon_fail = []
     for q, clause in viol:
         mon_fail.append(({"kind": "monitor", "function": q}, "run-time contract of %s violated: %s" % (q, clause[:300])))
